@@ -79,10 +79,28 @@ func hcall(h handlers.Handler, op wire.Op, spare bool) (res HRes) {
 		req := common.GetRequest{}
 		for i, k := range op.Keys {
 			req.Keys = append(req.Keys, keyBytes(k, spare))
-			req.Opaques = append(req.Opaques, op.Opaque+uint32(i))
+			if op.SameOpq {
+				req.Opaques = append(req.Opaques, op.Opaque)
+			} else {
+				req.Opaques = append(req.Opaques, op.Opaque+uint32(i))
+			}
 			req.Quiet = append(req.Quiet, i < len(op.Quiets) && op.Quiets[i])
 		}
-		idxOf := func(opq uint32) int { return int(opq - op.Opaque) }
+		usedIdx := map[int]bool{}
+		var curKey []byte
+		idxOf := func(opq uint32) int {
+			if !op.SameOpq {
+				return int(opq - op.Opaque)
+			}
+			// text style: attribute by key, first occurrence not yet answered
+			for i, k := range op.Keys {
+				if !usedIdx[i] && k == string(curKey) {
+					usedIdx[i] = true
+					return i
+				}
+			}
+			return -1
+		}
 		if op.Kind == "get" {
 			rc, ec := h.Get(req)
 			for rc != nil || ec != nil {
@@ -92,6 +110,7 @@ func hcall(h handlers.Handler, op wire.Op, spare bool) (res HRes) {
 						rc = nil
 						continue
 					}
+					curKey = r.Key
 					if r.Miss {
 						res.Miss = append(res.Miss, idxOf(r.Opaque))
 					} else {
@@ -114,6 +133,7 @@ func hcall(h handlers.Handler, op wire.Op, spare bool) (res HRes) {
 						rc = nil
 						continue
 					}
+					curKey = r.Key
 					if r.Miss {
 						res.Miss = append(res.Miss, idxOf(r.Opaque))
 					} else {
